@@ -171,5 +171,5 @@ def any_text(t, max_len=300, with_grammar=True):
             from . import docgen
         except ImportError:
             return 'G2-lines', line_doc(t)
-        return k, docgen.random_document_text(t)
+        return k, docgen.random_document_text(t, {'refs': True} if t.chance(100) else None)
     return k, corpus_text(t)
